@@ -58,11 +58,16 @@ Proof.
 Qed.
 
 (* no positive-ACK-limit fault (Finished phase) / abandon (Cancelled phase) before the limit *)
+Lemma ht_nak_quiet now (s : rstate) : r_out (ht_nak now s) = r_out s /\ r_phase (ht_nak now s) = r_phase s /\
+  t_ack (r_timer (ht_nak now s)) = t_ack (r_timer s).
+Proof. unfold ht_nak, c_timeout_occurred. repeat (destr_inner; cbn [fst snd]); auto. Qed.
 Lemma r_no_ack_fault_before_limit now (s : rstate) : r_phase s <> RecvData ->
   snd (c_limit_reached now (t_ack (r_timer s))) = false -> r_out (ht_phase now s) = r_out s.
 Proof.
-  intros Hp H. unfold ht_phase. destruct (r_phase s); [congruence| |];
-    destruct (c_limit_reached now (t_ack (r_timer s))) as [c lim]; cbn [snd] in H; subst lim;
+  intros Hp H. unfold ht_phase. destruct (ht_nak_quiet now s) as (Q1 & Q2 & Q3).
+  rewrite <- Q1. rewrite <- Q3 in H. rewrite <- Q2 in Hp. remember (ht_nak now s) as s1 eqn:E; clear E.
+  unfold ht_ackphase. destruct (r_phase s1); [congruence| |];
+    destruct (c_limit_reached now (t_ack (r_timer s1))) as [c lim]; cbn [snd] in H; subst lim;
     unfold set_fin_flag; repeat (destr_inner; cbn [fst snd]); reflexivity.
 Qed.
 
